@@ -191,7 +191,7 @@ class Path(typing.Generic[H]):
         return self.joinpath(key)
 
     def __rtruediv__(self, key: Any) -> "Path[H]":
-        return Path(self._host, [key] + list(self.parts))
+        return Path(self._host, key, self._path)
 
     @property
     def parent(self) -> "Path[H]":
